@@ -71,8 +71,11 @@ def run(r, spec, ops, inputs):
         res = M.run_history(pym, spec, ops)
     if res is not None:
         k = res['op_index']
+        # known defect region: base holding a 0-d array, no sensitivity yet, first sensitivity write goes through a slice (state*0 is an immutable numpy scalar)
+        zero_d = isinstance(M.dec(spec[0]['state']), np.ndarray) and M.dec(spec[0]['state']).ndim == 0
+        fid = 'C18-0d-slice-alloc' if (zero_d and res.get('alloc_through_slice') and 'TypeError' in res['what']) else None
         r.check(False, res['what'], dict(inputs, op_index=k, op=res.get('op'), signal=res.get('signal'), slice=res.get('slice')),
-                res.get('observed'), res.get('expected'), replay_code=replay(spec, ops[:k + 1]))
+                res.get('observed'), res.get('expected'), replay_code=replay(spec, ops[:k + 1]), finding=fid)
     return res is None
 
 
@@ -93,19 +96,35 @@ def script(rng, shape, dtype, chain):
 
 @bound('every key chain of the catalogue (6 base shapes incl. 0-d, (1,), (5,1); 63 chains: ints, basic/empty/negative-step slices, tuples, Ellipsis, newaxis, '
        'int arrays/lists without repeats, several index arrays, ix_, boolean masks, nested basic 2-3 levels, basic->array) x dtype {float64, complex128, '
-       'float32} x base memory layout {C, F, strided view}; one scripted 32-operation history each (2 signals, one built with a sensitivity = keep_alloc)')
+       'float32} x base memory layout {C, F, strided view} (quick: each chain with each dtype and each layout once; thorough: full product); one scripted 32-operation history each (2 signals, one built with a sensitivity = keep_alloc)')
 def scripted_per_slice(r, tier, seed):
     rng = np.random.default_rng(seed + 18)
     for shape, chains in CAT.items():
         for ci, chain in enumerate(chains):
             other = chains[(ci + 1) % len(chains)]
-            for dtype, order in itertools.product(DTYPES, ORDERS):
+            combos = list(itertools.product(DTYPES, ORDERS))
+            if tier == 'quick':   # each chain with every dtype and every layout once (rotating pairing); thorough: the full product
+                combos = [(DTYPES[k], ORDERS[(k + ci) % 3]) for k in range(3)]
+            for dtype, order in combos:
                 if order != 'C' and len(shape) == 0:
-                    continue
+                    order = 'C'
                 spec = [dict(state=lit(rnd(rng, shape, dtype)), sens=None, order=order, slices=[chain, other, ("Ellipsis",)]),
                         dict(state=lit(rnd(rng, shape, dtype)), sens=lit(rnd(rng, shape, dtype)), order=order, slices=[chain, other])]
+                ops = script(rng, shape, dtype, chain)
                 r.case((shape, chain, dtype, order))
-                run(r, spec, script(rng, shape, dtype, chain), dict(shape=shape, chain=chain, dtype=dtype, order=order))
+                run(r, spec, ops, dict(shape=shape, chain=chain, dtype=dtype, order=order))
+                if shape == ():
+                    # 0-d base: the same history with the base sensitivity allocated by a base add before every write through the slice, so that
+                    # everything outside the region of finding C18-0d-slice-alloc is still checked
+                    ops2 = []
+                    for op in ops:
+                        tg = [op[1:4]] if op[0] in ('sens', 'add') else [op[1], op[2]] if op[0] == 'add2' else []
+                        for (i, j, _) in tg:
+                            if j is not None:
+                                ops2.append(('add', i, None, False, lit(rnd(rng, shape, dtype))))
+                        ops2.append(op)
+                    r.case((shape, chain, dtype, order, 'allocated'))
+                    run(r, spec, ops2, dict(shape=shape, chain=chain, dtype=dtype, order=order, variant='base sensitivity allocated first'))
 
 
 def random_ops(rng, spec, n):
@@ -116,7 +135,7 @@ def random_ops(rng, spec, n):
         i = int(rng.integers(nsig))
         ns = len(spec[i]['slices'])
         j = None if (ns == 0 or rng.random() < 0.35) else int(rng.integers(ns))
-        return i, j, bool(rng.integers(2))
+        return i, j, bool(rng.random() < 0.25)
 
     def val(i, j, allow_scalar=True):
         st = M.dec(spec[i]['state'])
@@ -163,12 +182,12 @@ def random_ops(rng, spec, n):
 
 @bound('random histories: 2-3 base signals (shapes of the catalogue, dtype float64/complex128/float32, layouts C/F/strided, with or without an initial '
        'sensitivity), 2-4 persistent slices each drawn from the catalogue (pairs of signals share shape and slices so that one object can be added to both), '
-       '45 operations {state=, sensitivity= (incl. None), add_sensitivity (arrays, broadcast, python/numpy scalars, 0-d, None, real into complex), same object '
-       'to two targets, reset(None/True/False)}; 250 histories [quick] / 2500 [thorough]')
+       '40 operations {state=, sensitivity= (incl. None), add_sensitivity (arrays, broadcast, python/numpy scalars, 0-d, None, real into complex), same object '
+       'to two targets, reset(None/True/False)}; 100 histories [quick] / 1000 [thorough]')
 def random_histories(r, tier, seed):
     rng = np.random.default_rng(seed + 1800)
     shapes = [s for s in CAT if s != ()]
-    for h in range(250 if tier == 'quick' else 2500):
+    for h in range(100 if tier == 'quick' else 1000):
         shape = shapes[int(rng.integers(len(shapes)))]
         dtype = DTYPES[int(rng.integers(3))]
         chains = [CAT[shape][int(k)] for k in rng.choice(len(CAT[shape]), size=min(len(CAT[shape]), int(rng.integers(2, 5))), replace=False)]
@@ -176,7 +195,7 @@ def random_histories(r, tier, seed):
         for n in range(int(rng.integers(2, 4))):
             spec.append(dict(state=lit(rnd(rng, shape, dtype)), sens=lit(rnd(rng, shape, dtype)) if rng.random() < 0.3 else None,
                              order=ORDERS[int(rng.integers(3))], slices=list(chains)))
-        ops = random_ops(rng, spec, 45)
+        ops = random_ops(rng, spec, 40)
         r.case(('hist', seed, h))
         run(r, spec, ops, dict(history=h, shape=shape, dtype=dtype, slices=chains))
 
